@@ -12,7 +12,7 @@ def run(tier, replay):
         events = json.load(open(replay))["replay"]["events"]
     else:
         if tier == "quick":
-            jobs = [["tamper", 1, 0, 1, 0, 0], ["tamper", 2, 50, 2, 2, 0], ["tamper", 4, 20, 3, 1, 0]]
+            jobs = [["tamper", 1, 0, 1, 0, 0], ["tamper", 2, 50, 2, 2, 0, "zt"], ["tamper", 4, 20, 3, 1, 0], ["tamper", 1, 150, 4, 0, 0, "zt"]]
         else:
             jobs = [["tamper", T, n, (n + T) % 5, (n // 5 + T) % 3, 1] for T in (1, 2, 4) for n in (0, 20, 50, 70)] + \
                    [["tamper", 2, 40, cm, hm, 0] for cm in range(5) for hm in range(3)]
